@@ -1132,3 +1132,9 @@ def same(a, b):
         return mk_bool(bv(a) == bv(b))
     r = _cmp(_as_intlike(a), _as_intlike(b), "eq")
     return r
+
+
+def sym_uf(name, args):
+    """Application of an uninterpreted n-ary real function (user models)."""
+    f = z3.Function(name, *([z3.RealSort()] * (len(args) + 1)))
+    return mk_real(f(*[rv(a) for a in args]))
